@@ -1000,6 +1000,10 @@ func (x *Exec) toSV(st *State, v Value) (SV, bool) {
 		if tv, ok := cur.(TV); ok {
 			return SV{T: tv.T, Ty: tv.Ty}, true
 		}
+		switch cur.(type) {
+		case SliceRef, MapRef, ByteView, IfaceV:
+			return x.toSV(st, cur)
+		}
 	case SliceRef, MapRef, ByteView:
 		tv := x.asTV(st, t)
 		return SV{T: tv.T, Ty: tv.Ty}, true
